@@ -46,8 +46,8 @@ ASSUMPTIONS = ['the image of a crash between operations k-1 and k is the '
 BUDGET = {'quick': (20, 16), 'thorough': (400, 16)}
 
 OPS = ['append', 'append', 'store', 'store', 'copy', 'move', 'expunge',
-       'create', 'rename', 'subscribe', 'check', 'append-other', 'delete',
-       'unsubscribe']
+       'create', 'rename', 'subscribe', 'check', 'check', 'append-other',
+       'delete', 'unsubscribe', 'append2', 'append2']
 SYS = [b'\\Seen', b'\\Flagged', b'\\Deleted', b'\\Answered']
 
 
@@ -219,6 +219,7 @@ def run_case(case: dict[str, Any]) -> CaseOut:
             m = msg()
             c.cmd(b's APPEND INBOX (\\Seen) {%d+}\r\n%s\r\n' % (len(m), m))
         c.cmd(b's SELECT INBOX\r\n')
+        c2: Any = None
         live = [crash.dump_all(h.sim)]       # dump after 0 acked commands
         names = [b'New', b'New2', b'Deep/er']
         for idx, (op, a, b) in enumerate(case['history']):
@@ -226,6 +227,15 @@ def run_case(case: dict[str, Any]) -> CaseOut:
                 'messages', {}))
             seq = b'%d' % (1 + a % max(n, 1)) if a % 3 else b'1:*'
             tag = b'h%d' % idx
+            conn = c
+            if op == 'append2':
+                # a second connection, nothing selected: its message stays in
+                # new/ until somebody claims it
+                if c2 is None:
+                    c2 = h.connect()
+                conn = c2
+                op = 'append'
+                out.label('append-by-second-connection')
             if op in ('append', 'append-other'):
                 m = msg()
                 dest = b'INBOX' if op == 'append' else b'Other'
@@ -254,7 +264,7 @@ def run_case(case: dict[str, Any]) -> CaseOut:
                                        b'Deep'][a % 5]
             else:
                 data = b'CHECK'
-            got = h.run(c, idx, tag + b' ' + data + b'\r\n')
+            got = h.run(conn, idx, tag + b' ' + data + b'\r\n')
             if c.done:
                 out.fail('connection-lost-during-history',
                          f'{data[:60]!r} -> {got[-120:]!r}')
